@@ -555,6 +555,52 @@ func c12EvalCLI(c *Ctx, dir string, idx int, cs c12Case) (out c10Out) {
 			out.violate("C12/cli/"+clause, fmt.Sprintf("vegeta %q: %s", r.argv[:len(r.argv)-1], msg), wit(clause))
 		}
 	}
+	if len(lats) >= 20000 {
+		// long inputs also go through periodic reporting: the last document written is the final
+		// report and its buckets hold every result
+		of := filepath.Join(dir, fmt.Sprintf("c12-%d.every.json", idx))
+		defer os.Remove(of)
+		argv := []string{"report", "-type=json", "-buckets", cs.Spec, "-every", "1ms", "-output", of, in}
+		so, se, exit, to, err := c10RunVegeta(c, argv...)
+		out.count("cli_runs", 1)
+		wit := c12Witness{Case: cs.forWitness(), Level: "cli-json-buckets-every", Want: want, Argv: argv[:len(argv)-1], Stderr: c12Trunc(se)}
+		switch {
+		case to || err != nil:
+			out.Incon = fmt.Sprintf("vegeta %v did not run to completion: timeout=%v err=%v", argv[:len(argv)-1], to, err)
+		case exit != 0:
+			wit.Clause, wit.Output = "cli-exit", c12Trunc(so)
+			out.violate("C12/cli/rejected", fmt.Sprintf("vegeta %q exits with %d: %s", argv[:len(argv)-1], exit, strings.TrimSpace(se)), wit)
+		default:
+			b, _ := os.ReadFile(of)
+			var last struct {
+				Buckets json.RawMessage `json:"buckets"`
+			}
+			docs := 0
+			dec := json.NewDecoder(bytes.NewReader(b))
+			for {
+				var d struct {
+					Buckets json.RawMessage `json:"buckets"`
+				}
+				if dec.Decode(&d) != nil {
+					break
+				}
+				last, docs = d, docs+1
+			}
+			out.count("cli_every_documents", int64(docs))
+			if docs > 1 {
+				out.count("cli_every_runs_with_intermediate_reports", 1)
+			}
+			clause, msg := "json-shape", "no JSON document with \"buckets\" in the output"
+			if docs > 0 && last.Buckets != nil {
+				clause, msg = c12CheckJSONBuckets(last.Buckets, bounds, want)
+			}
+			out.count("cli_reports_checked", 1)
+			if clause != "" {
+				wit.Clause, wit.Output = clause, c12Trunc(string(last.Buckets))
+				out.violate("C12/cli/"+clause+"/periodic", fmt.Sprintf("vegeta %q, last of %d documents: %s", argv[:len(argv)-1], docs, msg), wit)
+			}
+		}
+	}
 	return
 }
 
@@ -746,6 +792,10 @@ func c12Cases(c *Ctx) (lib, spec, cli []c12Case) {
 		c12Case{Kind: "cli", Format: "csv", Spec: "[2ms,4ms]", Bounds: []int64{2 * ms, 4 * ms}, Lats: []int64{0, 1, 2*ms - 1, 2 * ms, 4*ms - 1, 4 * ms}},
 		c12Case{Kind: "cli", Format: "gob", Spec: "[ 1ms,\t10ms ]", Bounds: []int64{ms, 10 * ms}, Lats: []int64{0, ms, 10 * ms}},
 	)
+	for i := 0; i < c.Pick(3, 12); i++ { // long inputs: tens of thousands of results per file
+		s, b := c12GenSpec(rc)
+		cli = append(cli, c12Case{Kind: "cli", Format: fm[i%3], Spec: s, Bounds: b, BigN: 40000 + rc.Intn(40000), BigSeed: rc.Int63()})
+	}
 	for i := 0; i < c.Pick(60, 150); i++ {
 		s, b := c12GenSpec(rc)
 		full := b
